@@ -329,7 +329,7 @@ impl Funds {
         kinds.push(("execute-by-poor", 1));
         kinds.push(("wasm-sudo", 0));
         kinds.push(("migrate", 0));
-        Funds { g: Grammar::new(1, 1, 1, 16, hi), lo, hi, entry_kinds: kinds }
+        Funds { g: Grammar::new(1, 1, 1, 18, hi), lo, hi, entry_kinds: kinds }
     }
 }
 
@@ -366,8 +366,12 @@ impl Family for Funds {
         if c < 14 {
             let target = if c / 7 == 0 { Target::SelfC } else { Target::Other };
             Msg::Call { target, funds: funds_choice(c % 7), node: child }
-        } else {
+        } else if c < 16 {
             Msg::Instantiate { code: 1, funds: funds_choice(if c == 14 { 1 } else { 4 }), label: "sub".into(), admin: None, node: child }
+        } else {
+            // the callee named by the upper-case spelling of its address (no contract lives at that
+            // string: the call is refused and no coin moves), with and without funds
+            Msg::Call { target: Target::Addr(_ad.b.to_uppercase()), funds: funds_choice(if c == 16 { 1 } else { 0 }), node: child }
         }
     }
 }
